@@ -382,3 +382,219 @@ Proof.
   destruct (nth idmax P false); [|reflexivity].
   unfold zero, one in H2. cbn [ofZ ROps] in H2. lra.
 Qed.
+
+(* ====================================================================== E. the active-set invariant *)
+Record Inv (n : nat) (A : list (list R)) (b : list R) (P : list bool) (Pin : list nat) (s : list R) : Prop := mkInv {
+  iP : length P = n;
+  iS : length s = n;
+  iNd : NoDup Pin;
+  iIn : forall i, In i Pin <-> ((i < n)%nat /\ nth i P false = true);
+  iOff : forall i, (i < n)%nat -> nth i P false = false -> nth i s 0 = 0;
+  iSol : forall i, In i Pin -> dotR (rowR A i) s = nth i b 0 }.
+
+Lemma find_pos_notin idx t : ~ In t idx -> find_pos t idx = None.
+Proof.
+  intros H. destruct (find_pos t idx) as [k|] eqn:E; [|reflexivity].
+  destruct (find_pos_Some _ _ _ E) as [Hk Hn]. exfalso. apply H. rewrite <- Hn. apply nth_In. exact Hk.
+Qed.
+
+(* common step: the solve on the ordered passive list, written back by fancy assignment *)
+Lemma inv_assign n A b P Pin (s0 s1 x : list R) :
+  wf n A b -> length P = n -> length s0 = n -> NoDup Pin ->
+  (forall i, In i Pin <-> ((i < n)%nat /\ nth i P false = true)) ->
+  @solve_sub ROps A b Pin = Some x ->
+  (forall t, (t < n)%nat -> ~ In t Pin -> nth t s0 0 = 0) ->
+  s1 = @assign ROps s0 Pin x ->
+  Inv n A b P Pin s1.
+Proof.
+  intros Hwf HP Hs0 Hnd HIn Hsolve Hoff ->.
+  assert (Hlen : length (@assign ROps s0 Pin x) = n) by (rewrite assign_length; exact Hs0).
+  assert (Hoff' : forall t, (t < n)%nat -> ~ In t Pin -> nth t (@assign ROps s0 Pin x) 0 = 0).
+  { intros t Ht Hn. rewrite assign_nth by lia. rewrite (find_pos_notin _ _ Hn). apply Hoff; assumption. }
+  constructor; auto.
+  - intros i Hi Hf. apply Hoff'; [exact Hi|]. intros Hin. apply HIn in Hin. destruct Hin as [_ Hin]. congruence.
+  - apply (solved_vector n A b Pin x); auto.
+    + intros i Hi. apply HIn in Hi. tauto.
+    + intros k Hk. rewrite assign_nth.
+      * rewrite find_pos_nth by assumption. reflexivity.
+      * rewrite Hs0. assert (In (nth k Pin 0%nat) Pin) as Hin by (apply nth_In; exact Hk). apply HIn in Hin. tauto.
+Qed.
+
+Lemma nth_zeros_any n t : nth t (@zeros ROps n) 0 = 0.
+Proof. apply nth_zeros_R. Qed.
+
+Lemma inv_solve_on n A b P (s : list R) :
+  wf n A b -> length P = n -> @solve_on ROps A b P = Some s -> Inv n A b P (idx_of P) s.
+Proof.
+  intros Hwf HP H. unfold solve_on in H.
+  assert (HIn : forall i, In i (idx_of P) <-> ((i < n)%nat /\ nth i P false = true)).
+  { intros i. rewrite idx_of_In, HP. reflexivity. }
+  destruct (existsb (fun p : bool => p) P) eqn:Ex.
+  - destruct (solve_sub _ _ (idx_of P)) as [x|] eqn:Es; [|discriminate]. inversion H; subst s; clear H.
+    apply (inv_assign n A b P (idx_of P) (@zeros ROps (length P)) _ x); auto.
+    + rewrite zeros_R_length. exact HP.
+    + apply idx_of_NoDup.
+    + intros t _ _. apply nth_zeros_any.
+  - inversion H; subst s; clear H. constructor; auto.
+    + rewrite zeros_R_length. exact HP.
+    + apply idx_of_NoDup.
+    + intros i _ _. apply nth_zeros_any.
+    + intros i Hi. apply HIn in Hi. destruct Hi as [Hi Ht]. exfalso.
+      assert (existsb (fun p : bool => p) P = true); [|congruence].
+      apply existsb_exists. exists (nth i P false). split; [apply nth_In; lia|exact Ht].
+Qed.
+
+Lemma nth_map_combine_bool (g : bool * R -> bool) P (v : list R) i :
+  g (false, 0) = false -> length P = length v ->
+  nth i (map g (combine P v)) false = g (nth i P false, nth i v 0).
+Proof.
+  intros Hg Hl. rewrite <- Hg at 1. rewrite map_nth, combine_nth by exact Hl. reflexivity.
+Qed.
+
+Lemma prune_correct n A b (tau : R) : wf n A b -> forall fuel P (s : list R) P' s',
+  length P = n -> length s = n ->
+  @prune ROps fuel A b tau P s = Ok (P', s') ->
+  (P' = P /\ s' = s \/ Inv n A b P' (idx_of P') s') /\ length P' = n /\ length s' = n /\ @need_fix ROps P' s' tau = false.
+Proof.
+  intros Hwf. induction fuel as [|fuel IH]; intros P s P' s' HP Hs H; cbn [prune] in H.
+  - destruct (need_fix _ _ _) eqn:E; [discriminate|]. inversion H; subst. auto.
+  - destruct (need_fix _ _ _) eqn:E.
+    + match type of H with context [@solve_on _ _ _ ?X] => set (P1 := X) in * end.
+      assert (HP1 : length P1 = n) by (unfold P1; rewrite map_length, combine_length; norm; lia).
+      destruct (@solve_on ROps _ _ P1) as [s1|] eqn:Es; [|discriminate].
+      pose proof (inv_solve_on n A b P1 s1 Hwf HP1 Es) as Hinv.
+      destruct (IH P1 s1 P' s' HP1 (iS _ _ _ _ _ _ Hinv) H) as [[[-> ->]|Hi] Hrest].
+      * split; [right; exact Hinv|exact Hrest].
+      * split; [right; exact Hi|exact Hrest].
+    + inversion H; subst. auto.
+Qed.
+
+(* fix_constraint keeps the invariant *)
+Lemma fix_constraint_inv n A b (tau : R) (st st' : @state ROps) : wf n A b ->
+  Inv n A b (sP st) (sPin st) (sS st) -> length (sD st) = n ->
+  @fix_constraint ROps A b tau st = Ok st' ->
+  Inv n A b (sP st') (sPin st') (sS st') /\ length (sD st') = n.
+Proof.
+  intros Hwf Hinv Hd H. destruct st as [P Pin s d]. cbn [sP sPin sS sD] in *.
+  destruct Hinv as [HP Hs Hnd HIn Hoff Hsol].
+  unfold fix_constraint in H. cbn [sP sPin sS sD] in H.
+  destruct (min_list _) as [alpha|]; [|discriminate].
+  cbv zeta in H.
+  match type of H with context [combine P ?X] => set (d' := X) in * end.
+  match type of H with context [map ?g (combine P d')] => set (P' := map g (combine P d')) in * end.
+  match type of H with context [filter ?g Pin] => set (Pin' := filter g Pin) in * end.
+  assert (Hd' : length d' = n) by (unfold d'; rewrite map_length, combine_length; norm; lia).
+  assert (HP' : length P' = n) by (unfold P'; rewrite map_length, combine_length; norm; lia).
+  assert (Hnd' : NoDup Pin') by (apply NoDup_filter; exact Hnd).
+  assert (HnP' : forall i, nth i P' false = nth i P false && negb (leb ROps (nth i d' 0) tau)).
+  { intros i. unfold P'. rewrite (nth_map_combine_bool _ P d' i); [reflexivity|reflexivity|norm; lia]. }
+  assert (HIn' : forall i, In i Pin' <-> ((i < n)%nat /\ nth i P' false = true)).
+  { intros i. unfold Pin'. rewrite filter_In, HIn, HnP', andb_true_iff. rewrite nthT_R. tauto. }
+  assert (Hfin : forall s1 : list R, length s1 = n ->
+            (Pin' = [] \/ exists x, @solve_sub ROps A b Pin' = Some x /\ s1 = @assign ROps s Pin' x) ->
+            Inv n A b P' Pin' (@zero_off ROps P' s1)).
+  { intros s1 Hs1 Hcase. constructor; auto.
+    - rewrite zero_off_length; lia.
+    - intros i Hi Hf. rewrite zero_off_nth by lia. rewrite Hf. reflexivity.
+    - destruct Hcase as [E|[x [Hsolve ->]]]; [rewrite E; intros i []|].
+      apply (solved_vector n A b Pin' x); auto.
+      + rewrite zero_off_length; lia.
+      + intros i Hi. apply HIn' in Hi. tauto.
+      + intros k Hk. assert (In (nth k Pin' 0%nat) Pin') as Hin by (apply nth_In; exact Hk).
+        apply HIn' in Hin. destruct Hin as [Hlt Ht].
+        rewrite zero_off_nth by lia. rewrite Ht. rewrite assign_nth by lia.
+        rewrite find_pos_nth by assumption. reflexivity.
+      + intros t Ht Hn. rewrite zero_off_nth by lia.
+        destruct (nth t P' false) eqn:Et; [|reflexivity]. exfalso. apply Hn. apply HIn'. auto. }
+  destruct Pin' as [|j0 Pin0] eqn:EP.
+  - inversion H; try subst st'; clear H. cbn [sP sPin sS sD]. split; [|exact Hd'].
+    apply Hfin; [exact Hs|left; reflexivity].
+  - destruct (solve_sub _ _ (j0 :: Pin0)) as [x|] eqn:Es; [|discriminate].
+    inversion H; try subst st'; clear H. cbn [sP sPin sS sD]. split; [|exact Hd'].
+    apply Hfin; [rewrite assign_length; exact Hs|right; exists x; auto].
+Qed.
+
+Lemma inner_correct n A b (tau : R) : wf n A b -> forall fuel (st : @state ROps) lc2 (st' : @state ROps) lc2',
+  Inv n A b (sP st) (sPin st) (sS st) -> length (sD st) = n ->
+  @inner ROps fuel A b tau st lc2 = Ok (st', lc2') ->
+  Inv n A b (sP st') (sPin st') (sS st') /\ length (sD st') = n /\ @need_fix ROps (sP st') (sS st') tau = false.
+Proof.
+  intros Hwf. induction fuel as [|fuel IH]; intros st lc2 st' lc2' Hinv Hd H; cbn [inner] in H.
+  - destruct (need_fix _ _ _) eqn:E; [discriminate|]. inversion H; subst. auto.
+  - destruct (need_fix _ _ _) eqn:E.
+    + destruct (fix_constraint _ _ _ st) as [st1|e] eqn:Ef; [|discriminate].
+      destruct (lc2 + 1 >? 10000)%Z; [discriminate|].
+      destruct (fix_constraint_inv n A b tau st st1 Hwf Hinv Hd Ef) as [Hinv1 Hd1].
+      exact (IH _ _ _ _ Hinv1 Hd1 H).
+    + inversion H; subst. auto.
+Qed.
+
+(* what every returned vector satisfies *)
+Definition Final (n : nat) (A : list (list R)) (b : list R) (tau : R) (d : list R) (P : list bool) : Prop :=
+  length P = n /\ length d = n /\
+  (forall i, (i < n)%nat -> nth i P false = true -> tau < nth i d 0) /\
+  (forall i, (i < n)%nat -> nth i P false = false -> nth i d 0 = 0) /\
+  (forall i, (i < n)%nat -> nth i P false = true -> dotR (rowR A i) d = nth i b 0).
+
+Lemma inv_final n A b (tau : R) P Pin (s : list R) :
+  Inv n A b P Pin s -> @need_fix ROps P s tau = false -> Final n A b tau s P.
+Proof.
+  intros [HP Hs Hnd HIn Hoff Hsol] Hnf. repeat split; auto.
+  - apply (need_fix_false P s tau n); auto.
+  - intros i Hi Ht. apply Hsol. apply HIn. auto.
+Qed.
+
+Lemma residual_nth n A b (d : list R) i : wf n A b -> (i < n)%nat ->
+  nth i (@residual ROps A b d) 0 = nth i b 0 - dotR (rowR A i) d.
+Proof.
+  intros [HA [Hr Hb]] Hi. unfold residual. norm.
+  set (f := fun rb : list R * R => sub ROps (snd rb) (@dot ROps (fst rb) d)).
+  rewrite (nth_indep _ 0 (f ([], 0))) by (rewrite map_length, combine_length; lia).
+  rewrite map_nth, combine_nth by lia. unfold f. cbn [fst snd sub ROps]. rewrite dot_dotR. reflexivity.
+Qed.
+Lemma residual_length n A b (d : list R) : wf n A b -> length (@residual ROps A b d) = n.
+Proof. intros [HA [Hr Hb]]. unfold residual. norm. rewrite map_length, combine_length. lia. Qed.
+
+Lemma outer_correct n A b (tau : R) : wf n A b -> 0 <= tau -> forall fuel (st : @state ROps) (w : list R) lc lc2 nu (d : list R) ek Pf,
+  Inv n A b (sP st) (sPin st) (sS st) -> sD st = sS st -> w = @residual ROps A b (sD st) ->
+  @need_fix ROps (sP st) (sS st) tau = false ->
+  @outer ROps fuel A b tau st w lc lc2 nu = Ok (d, ek, Pf) ->
+  Final n A b tau d Pf /\
+  (ek = ExitCond -> forall i, (i < n)%nat -> nth i Pf false = false -> nth i b 0 - dotR (rowR A i) d <= tau).
+Proof.
+  intros Hwf Htau. induction fuel as [|fuel IH]; intros st w lc lc2 nu d ek Pf Hinv Hds Hw Hnf H; cbn [outer] in H.
+  - destruct (keep_going _ _ _) eqn:Ek; [discriminate|]. inversion H; subst d ek Pf; clear H.
+    rewrite Hds. split; [eapply inv_final; eauto|].
+    intros _ i Hi Hf. rewrite <- (residual_nth n A b (sS st) i Hwf Hi). rewrite <- Hds, <- Hw.
+    apply (keep_going_false (sP st) w tau n); auto; [apply (iP _ _ _ _ _ _ Hinv)|].
+    rewrite Hw. apply residual_length. exact Hwf.
+  - destruct (keep_going _ _ _) eqn:Ek.
+    2:{ inversion H; subst d ek Pf; clear H.
+        rewrite Hds. split; [eapply inv_final; eauto|].
+        intros _ i Hi Hf. rewrite <- (residual_nth n A b (sS st) i Hwf Hi). rewrite <- Hds, <- Hw.
+        apply (keep_going_false (sP st) w tau n); auto; [apply (iP _ _ _ _ _ _ Hinv)|].
+        rewrite Hw. apply residual_length. exact Hwf. }
+    destruct st as [P Pin s d0]. cbn [sP sPin sS sD] in *. subst d0.
+    pose proof Hinv as [HP Hs Hnd HIn Hoff Hsol].
+    assert (Hlw : length w = n) by (rewrite Hw; apply residual_length; exact Hwf).
+    destruct (idmax_ok P w tau n HP Hlw Htau Ek) as [Hid HPid].
+    set (idmax := argmax _) in *.
+    destruct (solve_sub _ _ (Pin ++ [idmax])) as [x|] eqn:Es; [|discriminate].
+    assert (Hnotin : ~ In idmax Pin) by (intros Hin; apply HIn in Hin; destruct Hin; congruence).
+    assert (Hinv1 : Inv n A b (upd_set P idmax true) (Pin ++ [idmax]) (@assign ROps s (Pin ++ [idmax]) x)).
+    { apply (inv_assign n A b _ _ s _ x); auto.
+      - rewrite upd_set_length. exact HP.
+      - apply (Permutation_NoDup (Permutation_cons_append Pin idmax)). constructor; assumption.
+      - intros i. rewrite in_app_iff, HIn. cbn [In]. rewrite nth_upd_set by lia.
+        destruct (Nat.eqb idmax i) eqn:E.
+        + apply Nat.eqb_eq in E. subst i. split; [auto|]. intros _. right. left. reflexivity.
+        + apply Nat.eqb_neq in E. split; [intros [Hi|[Hi|[]]]; [exact Hi|congruence]|intros Hi; left; exact Hi].
+      - intros t Ht Hn. apply Hoff; [exact Ht|]. destruct (nth t P false) eqn:Et; [|reflexivity].
+        exfalso. apply Hn. apply in_app_iff. left. apply HIn. auto. }
+    destruct (inner _ _ _ _ _ lc2) as [[st2 lc2']|e] eqn:Ei; [|discriminate].
+    destruct (inner_correct n A b tau Hwf (S fuel) (mkst (upd_set P idmax true) (Pin ++ [idmax]) (@assign ROps s (Pin ++ [idmax]) x) s) lc2 st2 lc2' Hinv1 Hs Ei) as [Hinv2 [Hd2 Hnf2]].
+    destruct (lc + 1 >? 10000)%Z; [discriminate|].
+    destruct (_ >=? 3)%Z.
+    + inversion H; subst d ek Pf; clear H. split; [eapply inv_final; eauto|]. intros Hc. discriminate.
+    + refine (IH (mkst (sP st2) (sPin st2) (sS st2) (sS st2)) _ _ _ _ d ek Pf _ _ _ _ H); cbn [sP sPin sS sD]; auto.
+Qed.
